@@ -1,0 +1,111 @@
+/**
+ * @file verif_hooks.h
+ * @brief Observation hooks for external runtime-verification harnesses.
+ *
+ * Only compiled when ADA_URL_ADA_VERIF is defined to a non-zero value. With
+ * the guard off nothing in this file is seen by the compiler and every hook
+ * macro expands to nothing. No hook changes behaviour unless a harness
+ * installs a callback or sets a flag.
+ */
+#ifndef ADA_VERIF_HOOKS_H
+#define ADA_VERIF_HOOKS_H
+
+#if ADA_URL_ADA_VERIF
+
+#include <atomic>
+#include <cstdint>
+
+namespace ada::verif {
+
+// H2: coverage counters (relaxed increments; read by the harness at exit).
+enum counter_id : int {
+  C_FAST_ABS_ENTERED = 0,
+  C_FAST_ABS_ACCEPTED,
+  C_PATH_TRIVIAL,
+  C_PATH_FAST,
+  C_PATH_SLOW,
+  C_HOSTDELIM_SHORT,
+  C_HOSTDELIM_SIMD,
+  C_HOSTDELIM_TAIL,
+  C_TABS_SHORT,
+  C_TABS_SIMD,
+  C_CANPARSE_FAST_TRUE,
+  C_CANPARSE_FAST_FALSE,
+  C_CANPARSE_FAST_NULLOPT,
+  C_CANPARSE_SIZE_SAFE,
+  C_CANPARSE_FULL,
+  C_IPV4_FAST_OK,
+  C_IPV4_FAST_FAIL,
+  C_NFC_ALREADY,
+  C_NFC_FULL,
+  C_TABLES_FAST,
+  C_TABLES_WON,
+  C_TABLES_WAITED,
+  C_TABLES_SPIN,
+  C_PARSE_EXIT_EARLY,
+  C_PARSE_EXIT_END,
+  C_LIMIT_READ,
+  C_PATTERN_FORCED_REGEXP,
+  C_COUNTER_MAX
+};
+
+inline std::atomic<uint64_t> counters[C_COUNTER_MAX]{};
+
+inline const char* counter_name(int id) {
+  static const char* const names[C_COUNTER_MAX] = {
+      "fast_abs_entered",      "fast_abs_accepted",  "path_trivial",
+      "path_fast",             "path_slow",          "hostdelim_short",
+      "hostdelim_simd",        "hostdelim_tail",     "tabs_short",
+      "tabs_simd",             "canparse_fast_true", "canparse_fast_false",
+      "canparse_fast_nullopt", "canparse_size_safe", "canparse_full",
+      "ipv4_fast_ok",          "ipv4_fast_fail",     "nfc_already",
+      "nfc_full",              "tables_fast",        "tables_won",
+      "tables_waited",         "tables_spin",        "parse_exit_early",
+      "parse_exit_end",        "limit_read",         "pattern_forced_regexp"};
+  return (id >= 0 && id < C_COUNTER_MAX) ? names[id] : "?";
+}
+
+// H3: schedule points inside ensure_tables().
+enum sched_point : int {
+  SP_ENTRY = 0,
+  SP_AFTER_FIRST_LOAD,
+  SP_CAS_WON,
+  SP_AFTER_INFLATE,
+  SP_BEFORE_READY_STORE,
+  SP_AFTER_READY_STORE,
+  SP_CAS_LOST,
+  SP_SPIN,
+  SP_POINT_MAX
+};
+using sched_fn = void (*)(int point);
+inline std::atomic<sched_fn> sched_callback{nullptr};
+
+// H6: invoked inside ada::get_max_input_length() before the load.
+using limit_read_fn = void (*)();
+inline std::atomic<limit_read_fn> limit_read_callback{nullptr};
+
+// H5: when set, url_pattern components are always compiled to a regular
+// expression instead of one of the literal/wildcard/empty shortcuts.
+inline std::atomic<bool> force_regexp_components{false};
+
+}  // namespace ada::verif
+
+#define ADA_VERIF_COUNT(id)                       \
+  ::ada::verif::counters[::ada::verif::id].fetch_add( \
+      1, std::memory_order_relaxed)
+#define ADA_VERIF_SCHED(point)                                              \
+  do {                                                                      \
+    ::ada::verif::sched_fn ada_verif_f =                                    \
+        ::ada::verif::sched_callback.load(std::memory_order_relaxed);       \
+    if (ada_verif_f != nullptr) ada_verif_f(::ada::verif::point);           \
+  } while (0)
+#define ADA_VERIF_LIMIT_READ()                                              \
+  do {                                                                      \
+    ::ada::verif::limit_read_fn ada_verif_f =                               \
+        ::ada::verif::limit_read_callback.load(std::memory_order_relaxed);  \
+    if (ada_verif_f != nullptr) ada_verif_f();                              \
+  } while (0)
+
+#endif  // ADA_URL_ADA_VERIF
+
+#endif  // ADA_VERIF_HOOKS_H
